@@ -572,6 +572,14 @@ def cli_shape_plans(tree, seed, tier):
             {"units": "ALL", "constants": [both], "io": True},
             {"units": [both], "constants": "ALL", "io": False},
         ]
+    # two extra main files of which one includes the other, listed in both orders
+    pairs = list(tree.unit_includes)
+    rng.shuffle(pairs)
+    for a, b in pairs[: (2 if tier == "quick" else 8)]:
+        shapes += [
+            {"units": [], "constants": [], "io": True, "main_files": ["au/units/%s.hh" % a, "au/units/%s.hh" % b]},
+            {"units": [], "constants": [], "io": False, "main_files": ["au/units/%s.hh" % b, "au/units/%s.hh" % a]},
+        ]
     plans = []
     for n, sel in enumerate(shapes):
         order = ["units", "constants", "noio", "version"]
